@@ -22,10 +22,17 @@ pub enum KKind {
 
 /// Complete Wing-Gong / Lowe search with memoisation. Initial register value: absent.
 pub fn linearizable(ops: &[KOp]) -> bool {
+    linearizable_within(ops, usize::MAX).expect("unbounded search always decides")
+}
+
+/// The same search, given up (None) once more than `max_states` distinct (done set, value) states
+/// were visited: histories with many indeterminate writes can have an astronomically large state
+/// space, and an undecided history is neither a pass nor a violation.
+pub fn linearizable_within(ops: &[KOp], max_states: usize) -> Option<bool> {
     let n = ops.len();
     assert!(n <= 63, "history per key too long for the bitmask search");
     if n == 0 {
-        return true;
+        return Some(true);
     }
     // value domain: None = absent
     let mut memo: HashSet<(u64, Option<u64>)> = HashSet::new();
@@ -43,9 +50,13 @@ pub fn linearizable(ops: &[KOp]) -> bool {
         full: u64,
         optional: u64,
         memo: &mut HashSet<(u64, Option<u64>)>,
+        max_states: usize,
     ) -> bool {
         if (done | optional) == full {
             return true;
+        }
+        if memo.len() > max_states {
+            return false;
         }
         if !memo.insert((done, val)) {
             return false;
@@ -66,12 +77,12 @@ pub fn linearizable(ops: &[KOp]) -> bool {
             }
             match &o.kind {
                 KKind::Write { val: w, .. } => {
-                    if go(ops, done | (1 << i), *w, full, optional, memo) {
+                    if go(ops, done | (1 << i), *w, full, optional, memo, max_states) {
                         return true;
                     }
                 }
                 KKind::Read { val: r } => {
-                    if *r == val && go(ops, done | (1 << i), val, full, optional, memo) {
+                    if *r == val && go(ops, done | (1 << i), val, full, optional, memo, max_states) {
                         return true;
                     }
                 }
@@ -79,7 +90,14 @@ pub fn linearizable(ops: &[KOp]) -> bool {
         }
         false
     }
-    go(ops, 0, None, full, optional, &mut memo)
+    let found = go(ops, 0, None, full, optional, &mut memo, max_states);
+    if found {
+        Some(true)
+    } else if memo.len() > max_states {
+        None
+    } else {
+        Some(false)
+    }
 }
 
 /// Simple necessary conditions; returns a human-readable witness if one is violated.
